@@ -1256,7 +1256,10 @@ def main():
         o = obs[bad]
         c = "hang" if o["timed_out"] else "crash" if o["panicked"] else "silent-failure"
         sig = o["panic"] or o["detail"][-200:] or "no error and no artifact"
-        hit = known_hit(known, pr, sig)
+        # the class of a listed finding is a property of the step that failed (its own configuration and templates)
+        st_bad = steps[bad]
+        hit = known_hit(known, {"config": st_bad.get("config") if isinstance(st_bad.get("config"), str) else json.dumps(st_bad.get("config") or {}),
+                                "aux": st_bad.get("aux") or {}}, sig)
         if hit:
             res.known(hit, "%s (%s)" % (hit.get("title", ""), sig[:120]))
             continue
